@@ -1065,6 +1065,8 @@ func Run(cfg hx.Config) (*hx.Meta, error) {
 		col.observe(cfg, fmt.Sprintf("derived.gen.go = first %d bytes of the %s output", j.k, j.which), j.v, cut, true, a, j.s)
 	})
 
+	runFixed(cfg, col.meta)
+
 	lines := make([]string, 0, len(col.obs))
 	for l := range col.obs {
 		lines = append(lines, l)
